@@ -122,8 +122,8 @@ class Canon(object):
                 setattr(info, a, [])
             for k, v in value["info"].items():
                 setattr(info, k, copy.deepcopy(v))
-            if value.get("guidelines"):
-                info.guidelines = [fg._guideline_dict(g) for g in value["guidelines"]]
+            # defcon's Info always hands a guidelines list to ufoLib (empty when there are none)
+            info.guidelines = [fg._guideline_dict(g) for g in value.get("guidelines", [])]
             w.writeInfo(info)
         elif part == "kerning":
             w.writeKerning({tuple(k.split("|")): v for k, v in value.items()})
